@@ -185,8 +185,7 @@ func (x *Exec) selfGrowing(o types.Object, nodes ...ast.Node) bool {
 					switch fid.Name {
 					case "make":
 					case "append":
-						a0, _ := r.Args[0].(*ast.Ident)
-						if a0 == nil || info.ObjectOf(a0) != o {
+						if !x.rootedAt(r.Args[0], o) {
 							ok = false
 						}
 					default:
@@ -206,6 +205,25 @@ func (x *Exec) selfGrowing(o types.Object, nodes ...ast.Node) bool {
 		})
 	}
 	return ok
+}
+
+// rootedAt: e is o, o[a:b], or append(<rootedAt o>, ...).
+func (x *Exec) rootedAt(e ast.Expr, o types.Object) bool {
+	switch t := e.(type) {
+	case *ast.ParenExpr:
+		return x.rootedAt(t.X, o)
+	case *ast.Ident:
+		return x.info().ObjectOf(t) == o
+	case *ast.SliceExpr:
+		return x.rootedAt(t.X, o)
+	case *ast.CallExpr:
+		if id, ok := t.Fun.(*ast.Ident); ok && id.Name == "append" {
+			if _, isB := x.info().ObjectOf(id).(*types.Builtin); isB {
+				return x.rootedAt(t.Args[0], o)
+			}
+		}
+	}
+	return false
 }
 
 func (x *Exec) havocLoop(st *State, lc *LoopContract, ord int, pos token.Pos, nodes ...ast.Node) {
@@ -249,9 +267,27 @@ func (x *Exec) havocLoop(st *State, lc *LoopContract, ord int, pos token.Pos, no
 		return
 	}
 	if lc.HasMod {
+		// explicit frame, relative to function entry: cells that existed at
+		// function entry and are not listed keep their pre-loop contents;
+		// everything allocated since entry may change (invariants must say
+		// what they need about it). Checked at the end of the body.
 		env := x.invEnv(pre, pos, nil)
-		for _, t := range x.assignTargets(env, lc.Modifies) {
-			x.havocCell(st, t.heap, t.key)
+		targets := x.assignTargets(env, lc.Modifies)
+		for _, hn := range sortedKeys(x.heapSorts) {
+			hs := x.heapSorts[hn]
+			hpre := x.heap(st, hn, hs)
+			nh := x.sym.Fresh(hn, hs)
+			k := BoundVar{Name: x.freshBound("r"), Sort: SInt}
+			kt := mk(k.Name, SInt)
+			conds := []*Term{Le(IntLit(0), kt), Lt(kt, x.entry0Alloc())}
+			for _, t := range targets {
+				if t.heap == hn {
+					conds = append(conds, Not(Eq(kt, t.key)))
+				}
+			}
+			st.heaps[hn] = nh
+			st.assume(Forall([]BoundVar{k}, Implies(And(conds...), Eq(Select(nh, kt), Select(hpre, kt))), Select(nh, kt)))
+			_ = hn
 		}
 		return
 	}
